@@ -138,6 +138,25 @@ def r2(cx):
         for a in rb.term(ss[0])["args"][1:]:
             so |= M.operand_origins(rb, a, at=(ss[0], M.T))
         from_progress = M.has_call(so, lambda c: c == SP + "load_progress")
+        # ... and only then: the preparation step is redone solely when the next phase IS Preparation; re-creating a split state that is
+        # merely absent resurrects a finished split (after complete_split the state is gone by design)
+        te = set()
+        for sw in M.bool_switches(rb):
+            r = sw["root"]
+            if r and r[2] == "call" and r[3]["callee"] == "std::cmp::PartialEq::eq" and (r[3].get("self_ty") or "").endswith("SplitPhase"):
+                org = set()
+                for a in r[3]["args"]:
+                    org |= M.operand_origins(rb, a, at=(r[0], M.T))
+                if M.has_call(org, lambda c: c.endswith("SplitProgress::next_phase")):
+                    te.add(sw["true_edge"])
+        hres = cx.hir(SP + "resume_split")
+        names_prep = any(n.get("k") == "bin" and n.get("op") == "==" and any((H.path_of(H.strip(x)) or "").endswith("SplitPhase::Preparation") for x in (n["a"], n["b"]))
+                         for n in H.walk(hres["tree"]))
+        if not (te and names_prep and all(rb.dominated_by_edges(s, te) for s in ss)):
+            cx.violation(rk, "preparation-redone-only-from-first-record", "%s: resume_split can call start_split although the recorded progress is past the preparation phase: a split whose state "
+                         "was already removed by complete_split gets a fresh state (phase Preparation, 0%% back-fill) and can never finish" % rb.sp(ss[0]), [rb.sp(ss[0])])
+        else:
+            cx.passed(rk, "preparation-redone-only-from-first-record", [rb.sp(ss[0])])
         if from_progress:
             cx.passed(rk, "first-record-is-resumable", [rb.sp(ss[0])])
         else:
